@@ -338,6 +338,95 @@ def replace_none_is_take(raw, types):
     return n
 
 
+def lower_identity_calls(raw, types):
+    """`Iterator::by_ref(&mut it)` returns its argument, and so does the blanket `IntoIterator::into_iter` of an iterator; for a `&mut I` (the
+    `for x in it.by_ref()` / `for x in &mut it` forms) the call is written as the move it is, so the loop's `next` is seen on `it` itself."""
+    if raw.get("_lic"):
+        return 0
+    raw["_lic"] = True
+    n = 0
+    for blk in raw["blocks"]:
+        t = blk["term"]
+        if t["k"] != "call" or len(t.get("args", [])) != 1 or t.get("dest") is None or t.get("target") is None:
+            continue
+        res = t.get("resolved") or {}
+        ident = False
+        if t.get("callee") == "core::iter::Iterator::by_ref" and res.get("path") == "core::iter::Iterator::by_ref":
+            ident = True
+        elif t.get("callee") == "core::iter::IntoIterator::into_iter" and res.get("path") == "<I as core::iter::IntoIterator>::into_iter" \
+                and t.get("targs") and types[t["targs"][0]].get("k") == "ref" and types[t["targs"][0]].get("mut"):
+            ident = True
+        if not ident or t["args"][0]["k"] not in ("move", "copy"):
+            continue
+        blk["stmts"].append({"k": "assign", "place": t["dest"], "rv": {"k": "use", "op": t["args"][0]}, "span": t["span"], "lowered_from": t.get("callee")})
+        blk["term"] = {"k": "goto", "target": t["target"], "span": t["span"], "rewritten_from": t.get("callee")}
+        n += 1
+    return n
+
+
+def lower_option_replace(raw, types):
+    """`opt.replace(v)` and `mem::replace(&mut opt, v)` on an Option place are `old = move opt; opt = Some(v)` (resp. `opt = v`): written as the two
+    assignments, for every rule that knows assignments to the place (neither call can unwind)."""
+    if raw.get("_lor"):
+        return 0
+    raw["_lor"] = True
+    defs = {}
+    for blk in raw["blocks"]:
+        for st in blk["stmts"]:
+            if st["k"] == "assign" and not st["place"]["proj"]:
+                defs.setdefault(st["place"]["local"], []).append(st)
+        t = blk["term"]
+        if t["k"] == "call" and t.get("dest") is not None and not t["dest"]["proj"]:
+            defs.setdefault(t["dest"]["local"], []).append(None)
+
+    def ref_target(local):
+        ds = defs.get(local, [])
+        if len(ds) != 1 or ds[0] is None or ds[0]["rv"].get("k") != "ref" or not ds[0]["rv"].get("mut"):
+            return None, None
+        return ds[0], ds[0]["rv"]["place"]
+    n = 0
+    for blk in raw["blocks"]:
+        t = blk["term"]
+        if t["k"] != "call" or len(t.get("args", [])) != 2 or t.get("dest") is None or t.get("target") is None:
+            continue
+        if t.get("callee") == "core::option::Option::<T>::replace":
+            wrap = True
+        elif t.get("callee") == "core::mem::replace" and t.get("targs") and types[t["targs"][0]].get("adt") == "core::option::Option":
+            wrap = False
+        else:
+            continue
+        a0 = t["args"][0]
+        if a0["k"] not in ("move", "copy") or a0["place"]["proj"]:
+            continue
+        st0, P = ref_target(a0["place"]["local"])
+        if P is None or st0 not in blk["stmts"]:
+            continue
+        used = [st0]
+        hops = 0
+        while P["proj"] and P["proj"][0]["k"] == "deref" and hops < 3:
+            st1, Q = ref_target(P["local"])
+            if Q is None or st1 not in blk["stmts"]:
+                break
+            P = {"local": Q["local"], "proj": list(Q["proj"]) + list(P["proj"][1:]), "ty": P["ty"]}
+            used.append(st1)
+            hops += 1
+        if types[P["ty"]].get("adt") != "core::option::Option":
+            continue
+        v = t["args"][1]
+        for u in used:
+            u["k"] = "nop"
+            u["was"] = "&mut of the Option place handed to replace"
+        blk["stmts"].append({"k": "assign", "place": t["dest"], "rv": {"k": "use", "op": {"k": "move", "place": P}}, "span": t["span"], "lowered_from": t.get("callee")})
+        if wrap:
+            rv = {"k": "aggregate", "agg": "adt", "adt": "core::option::Option", "variant": "Some", "vidx": 1, "fields": ["0"], "ops": [v]}
+        else:
+            rv = {"k": "use", "op": v}
+        blk["stmts"].append({"k": "assign", "place": P, "rv": rv, "span": t["span"], "lowered_from": t.get("callee")})
+        blk["term"] = {"k": "goto", "target": t["target"], "span": t["span"], "rewritten_from": t.get("callee")}
+        n += 1
+    return n
+
+
 # ---------------------------------------------------------------------------------------------------------------------
 # helper functions of the crate that are, statement for statement, one of Option's own methods
 # ---------------------------------------------------------------------------------------------------------------------
